@@ -61,6 +61,10 @@ func c10Spelling(root string, i int, d IncDir) string {
 		return to
 	case "home":
 		return "~/" + c10Names[d.Target]
+	case "absdot": // absolute, but not in canonical form
+		return filepath.Dir(to) + "/./" + filepath.Base(to)
+	case "absup":
+		return root + "/sub/../" + strings.TrimPrefix(to, root+"/")
 	case "dot":
 		r := relPath(from, to)
 		if !strings.HasPrefix(r, "..") {
